@@ -1,4 +1,6 @@
 import NunavutVerif.Lemmas.Lexer
+import NunavutVerif.Lemmas.LexerFull
+import NunavutVerif.Lemmas.Autoindent
 /-!
 # C19 — the bundled template engine is a conservative extension of stock Jinja2
 
@@ -220,6 +222,164 @@ theorem C19_ifuses_is_if_elif_else (q : Str → Option Bool) (openNegate : Bool)
   · simp at h
   · simp at h
 
+/-! ## Round 2: the whole state machine of the lexer (`Model/LexerFull.lean`)
+
+`lexF` is `Lexer.tokeniter` from the root state with every tag state concrete (block / variable / line statement
+tokenisation with brace balancing, comments, raw blocks, line comments, `-` / `+` signs, `trim_blocks`,
+`lstrip_blocks`, line statement / comment prefixes), `tokeniter` adds the source normalisation, `tokenize` adds
+`Lexer.wrap` (what the parser sees).  `Tables` (character classes of names / digits, operator list) are arbitrary. -/
+
+/-- T1, whole lexer, every environment setting: on a text without marker sequence the edited lexer produces the
+same token stream as the lexer without Nunavut's alternatives, from any root-state position. -/
+theorem C19_lexer_eq_stock_without_marker (e : Env) (tb : Tables) (fuel : Nat) (prev : Option Char) (src : Str)
+    (h : hasMarker e.cfg src = false) : lexF e tb fuel prev src = lexF e.upstream tb fuel prev src :=
+  lexF_upstream e tb fuel prev src h
+
+/-- T1 for `Lexer.tokeniter` / `Lexer.tokenize` on the template source as written (before normalisation): for every
+source without `{{*` / `{%*`, every `trim_blocks`, `lstrip_blocks`, `keep_trailing_newline`, `newline_sequence`,
+line statement and line comment prefix, the token stream with line numbers — and what `wrap` hands to the parser,
+including which begin tokens the parser would wrap in `lineprefix` — is the upstream one. -/
+theorem C19_tokeniter_eq_stock_without_marker (e : Env) (tb : Tables) (keep : Bool) (seq source : Str)
+    (h : hasMarker e.cfg source = false) :
+    tokeniter e tb keep source = tokeniter e.upstream tb keep source ∧
+      tokenize e tb keep seq source = tokenize e.upstream tb keep seq source := by
+  have := tokeniter_upstream e tb keep source h
+  exact ⟨this, by unfold tokenize; rw [this]⟩
+
+/-- The states entered by a begin token are upstream code: what they tokenise does not depend on the edit, and a
+block / variable state does not see whether its begin token ended in `*` (the only look-behind, `(?<!\.)` of the
+float rule, asks for a dot). -/
+theorem C19_tag_state_ignores_the_marker (e : Env) (tb : Tables) (hops : ∀ op ∈ tb.operators, op ≠ [])
+    (c : Char) (hc : c = '{' ∨ c = '%') (rest : Str) :
+    innerF e.lstrip e.trim tb (kindOf c).toR (some '*') rest =
+      innerF e.upstream.lstrip e.upstream.trim tb (kindOf c).toR (some c) rest := by
+  have hk : (kindOf c).toR = .variable ∨ (kindOf c).toR = .block := by
+    rcases hc with rfl | rfl
+    · left; rfl
+    · right; rfl
+  have hp : ((some '*' : Option Char) != some '.') = ((some c : Option Char) != some '.') := by
+    rcases hc with rfl | rfl <;> decide
+  exact innerF_prev e.lstrip e.trim tb hops _ hk _ _ rest hp
+
+/-- T2 for whole token streams (Nunavut's settings: no line statement / comment prefixes).  Source
+`d w {c* rest` (marker) against `d w {c rest` (the plain construct; `rest` does not begin with a sign), `d` data
+without `{` that does not end in a blank, `w` blanks.  Tokenised from the same root-state position by the bundled
+lexer, the two streams are
+
+    marker:  data d            , begin (w{c*) , K
+    plain:   data (d w)        , begin ({c)   , K        (or  data d, begin (w{c), K  when `lstrip_blocks`
+                                                          strips the blanks of a block at the start of a line)
+
+with the SAME continuation `K` (tokens of the tag up to its end token, then the rest of the template): (a) the begin
+token is rewritten, (b) the captured blanks are removed from the preceding data token (an empty data token is not
+emitted), and nothing else changes.  (`{%*` followed by `\s*raw\s*-?%}` is a raw begin instead, hence `hraw`.) -/
+theorem C19_marker_rewrites_two_tokens (e : Env) (tb : Tables) (hs : e.star = true) (hl : e.noLinePrefixes)
+    (hops : ∀ op ∈ tb.operators, op ≠ [])
+    (fuel : Nat) (prev : Option Char) (c : Char) (d w rest : Str) (hc : c = '{' ∨ c = '%')
+    (hd : ∀ x ∈ d, x ≠ '{') (hlast : ∀ x, d.getLast? = some x → isBlank x = false)
+    (hw : ∀ x ∈ w, isBlank x = true) (ht : noSign rest) (hraw : c = '%' → rawTail rest = none) :
+    let K := (innerF e.lstrip e.trim tb (kindOf c).toR (some c) rest).andThen (lexF e tb fuel)
+    let b := (kindOf c).toR.beginTT
+    lexF e tb (fuel + 1) prev (d ++ (w ++ '{' :: c :: '*' :: rest)) =
+        optTok .data d ++ .tok b (w ++ ['{', c, '*']) :: K ∧
+      lexF e tb (fuel + 1) prev (d ++ (w ++ '{' :: c :: rest)) =
+        (if (e.lstrip && bolAfter (isBol prev) d && c == '%') = true
+          then optTok .data d ++ [.tok b (w ++ ['{', c])]
+          else optTok .data (d ++ w) ++ [.tok b ['{', c]]) ++ K := by
+  intro K b
+  refine ⟨?_, lexF_plain e tb hl.1 hl.2 fuel prev c d w rest hc hd hlast hw ht hraw⟩
+  rw [lexF_marker e tb hs hl.1 hl.2 fuel prev c d w rest hc hd hlast hw hraw,
+    C19_tag_state_ignores_the_marker e tb hops c hc rest]
+  rfl
+
+/-- … and the plain construct is tokenised by the lexer WITHOUT Nunavut's alternatives exactly as by the bundled
+one when no further marker follows: the stream of the marker construct is the upstream stream of the plain
+construct with the two tokens rewritten. -/
+theorem C19_marker_stream_vs_stock_plain (e : Env) (tb : Tables) (hl : e.noLinePrefixes)
+    (fuel : Nat) (prev : Option Char) (c : Char) (d w rest : Str) (hc : c = '{' ∨ c = '%')
+    (hd : ∀ x ∈ d, x ≠ '{') (hlast : ∀ x, d.getLast? = some x → isBlank x = false)
+    (hw : ∀ x ∈ w, isBlank x = true) (ht : noSign rest) (hraw : c = '%' → rawTail rest = none)
+    (hm : hasMarker e.cfg ('{' :: c :: rest) = false) :
+    lexF e.upstream tb (fuel + 1) prev (d ++ (w ++ '{' :: c :: rest)) =
+      (if (e.lstrip && bolAfter (isBol prev) d && c == '%') = true
+        then optTok .data d ++ [.tok (kindOf c).toR.beginTT (w ++ ['{', c])]
+        else optTok .data (d ++ w) ++ [.tok (kindOf c).toR.beginTT ['{', c]]) ++
+        (innerF e.lstrip e.trim tb (kindOf c).toR (some c) rest).andThen (lexF e tb fuel) := by
+  have hno : hasMarker e.cfg (d ++ (w ++ '{' :: c :: rest)) = false := by
+    rw [hasMarker_append_noBrace e.cfg d _ hd,
+      hasMarker_append_noBrace e.cfg w _ (fun x hx => (ne_brace_of_isBlank (hw x hx)).symm), hm]
+  rw [← lexF_upstream e tb (fuel + 1) prev _ hno]
+  exact lexF_plain e tb hl.1 hl.2 fuel prev c d w rest hc hd hlast hw ht hraw
+
+/-! ## Round 2: `Parser.subparse` autoindent wrapping composed with `lineprefix` (`Model/Autoindent.lean`) -/
+
+/-- What `subparse` does with a begin token: `{{* e }}` at indentation `w` (begin token `w{{*`, T2) becomes the
+`lineprefix` filter with argument exactly `w` around the expression and renders as `lineprefix w (output of e)`;
+a statement `{%* … %}` becomes a filter block and renders as `lineprefix w (output of the statement)`; a begin token
+that does not end in `*` is not wrapped; a `*` on an end / intermediate tag (`{%* endif %}`) is ignored — the
+enclosing statement is closed exactly as by the plain tag. -/
+theorem C19_subparse_wraps_marked_constructs (st : Stmts) (V : Val) (fuel : Nat) (ends : List Str) (w e : Str)
+    (c : Char) (v name arg : Str) (n : Node) (is : List Item) :
+    (subparse st (fuel + 1) ends (.var (w ++ ['{', c, '*']) e :: is) =
+        (match subparse st fuel ends is with
+         | .ok (ns, e', r) => .ok (.exprWrapped w e :: ns, e', r)
+         | .error x => .error x)) ∧
+      renderNode V (.exprWrapped w e) = lineprefix w (V.expr e) ∧
+      renderNode V (wrapStmt (w ++ ['{', c, '*']) n) = lineprefix w (renderNode V n) ∧
+      (endsStar v = false →
+        subparse st (fuel + 1) ends (.var v e :: is) =
+            (match subparse st fuel ends is with
+             | .ok (ns, e', r) => .ok (.expr e :: ns, e', r)
+             | .error x => .error x) ∧
+          wrapStmt v n = n) ∧
+      (ends.contains name = true → subparse st (fuel + 1) ends (.tag v name arg :: is) = .ok ([], some name, is)) := by
+  refine ⟨?_, ?_, ?_, ?_, ?_⟩
+  · simp only [subparse, endsStar_marker, autoindentPrefix_marker, if_true]
+  · simp [renderNode]
+  · simp [wrapStmt, endsStar_marker, autoindentPrefix_marker, renderNode, renderNodes]
+  · intro hv
+    refine ⟨?_, ?_⟩
+    · simp only [subparse, hv, Bool.false_eq_true, if_false]
+    · simp [wrapStmt, hv]
+  · intro hn
+    simp only [subparse, hn, if_true]
+
+/-- `lineprefix` on a text given by its lines (no line boundary inside a line): every non-empty line gets the prefix,
+lines are joined by `\n`, and a final empty line (= the text ended in a terminator) disappears. -/
+theorem C19_lineprefix_lines (p : Str) (ls : List Str) (h : ∀ l ∈ ls, breakFree l) :
+    lineprefix p (joinNl ls) = joinNl ((dropTrailingEmpty ls).map (pre p)) :=
+  lineprefix_joinNl p ls h
+
+/-- Nested markers, exact law: the prefixes ACCUMULATE (outer ++ inner), and each of the two applications drops one
+final line terminator.  `p2` is a captured prefix: blanks, in particular without line boundary. -/
+theorem C19_lineprefix_nested (p1 p2 x : Str) (hp : breakFree p2) :
+    lineprefix p1 (lineprefix p2 x) = lineprefix (p1 ++ p2) (lineprefix [] x) :=
+  lineprefix_lineprefix p1 p2 x hp
+
+/-- Nested markers in context: an inner marked construct at indentation `p2` that contributes the lines `lx` (already
+prefixed: `lx.map (pre p2)`) to the body of an outer marked block at indentation `p1`, between the lines `la` and
+`lb` of that body.  In the output of the outer block the inner lines carry `p1 ++ p2`, the other lines `p1`, empty
+lines nothing (the body does not end in an empty line — else that line disappears, see `C19_lineprefix_lines`). -/
+theorem C19_lineprefix_prefixes_accumulate (p1 p2 : Str) (la lx lb : List Str) (hp : breakFree p2)
+    (ha : ∀ l ∈ la, breakFree l) (hx : ∀ l ∈ lx, breakFree l) (hb : ∀ l ∈ lb, breakFree l)
+    (hlast : (la ++ lx ++ lb).getLast? ≠ some []) :
+    lineprefix p1 (joinNl (la ++ lx.map (pre p2) ++ lb)) =
+      joinNl (la.map (pre p1) ++ lx.map (pre (p1 ++ p2)) ++ lb.map (pre p1)) :=
+  lineprefix_context p1 p2 la lx lb hp ha hx hb hlast
+
+/-- Output ending in a line terminator (known finding F15c, exact form): appending ONE terminator to an output that
+does not end in one changes nothing — the marked construct renders as if the terminator were not there. -/
+theorem C19_lineprefix_final_terminator_dropped (p x : Str) (c : Char) (hc : isBreak c = true)
+    (hlast : ∀ y, x.getLast? = some y → isBreak y = false) :
+    lineprefix p (x ++ [c]) = lineprefix p x :=
+  lineprefix_snoc_break p x c hc hlast
+
+/-- Empty output: a marked construct that prints nothing renders nothing (and the captured blanks are gone from the
+data, T2); more generally output without a non-empty line gets no prefix anywhere. -/
+theorem C19_lineprefix_empty_output (p x : Str) :
+    lineprefix p [] = [] ∧ ((∀ l ∈ splitlines x, l = []) → lineprefix p x = lineprefix [] x) :=
+  ⟨by simp [lineprefix, splitlines, linesT, joinNl], lineprefix_all_empty p x⟩
+
 /-! ## Non-vacuity and negation witnesses -/
 
 -- T1 is not vacuous and its hypothesis is needed: with a marker the scans differ.
@@ -253,5 +413,54 @@ example : normalizeSource false "a\n\n".toList = "a\n".toList ∧ normalizeSourc
 example : doAssert false "m".toList = .error (.assertion "m".toList) := by rfl
 example : parseUses true "a".toList "A".toList [⟨.elifuses, "b".toList, "B".toList⟩, ⟨.else_, [], "C".toList⟩, ⟨.end_, [], []⟩]
     = .ok ⟨true, "a".toList, "A".toList, [(false, "b".toList, "B".toList)], "C".toList⟩ := by rfl
+
+-- Round 2: the whole lexer.  A marker construct and its plain form, tokenised by the bundled lexer (ASCII tables):
+def envN (star lstrip trim : Bool) : Env := ⟨star, false, lstrip, trim, none, none⟩
+example : lexF (envN true false false) asciiTables 20 none "a\n  {{* x }}b".toList =
+    [.tok .data "a\n".toList, .tok .variableBegin "  {{*".toList, .tok .whitespace " ".toList, .tok .name "x".toList,
+     .tok .whitespace " ".toList, .tok .variableEnd "}}".toList, .tok .data "b".toList] := by decide
+example : lexF (envN true false false) asciiTables 20 none "a\n  {{ x }}b".toList =
+    [.tok .data "a\n  ".toList, .tok .variableBegin "{{".toList, .tok .whitespace " ".toList, .tok .name "x".toList,
+     .tok .whitespace " ".toList, .tok .variableEnd "}}".toList, .tok .data "b".toList] := by decide
+-- lstrip_blocks strips the blanks of a plain block at the start of a line; the marker captures them either way
+example : lexF (envN true true true) asciiTables 20 none "  {% x %}\nb".toList =
+    [.tok .blockBegin "  {%".toList, .tok .whitespace " ".toList, .tok .name "x".toList,
+     .tok .whitespace " ".toList, .tok .blockEnd "%}\n".toList, .tok .data "b".toList] := by decide
+-- the upstream lexer reads `{{*` as `{{` followed by the operator `*`; braces inside the tag are balanced
+example : lexF (envN false false false) asciiTables 20 none "  {{* {1:2}}}".toList =
+    [.tok .data "  ".toList, .tok .variableBegin "{{".toList, .tok .operator "*".toList, .tok .whitespace " ".toList,
+     .tok .operator "{".toList, .tok .integer "1".toList, .tok .operator ":".toList, .tok .integer "2".toList,
+     .tok .operator "}".toList, .tok .variableEnd "}}".toList] := by decide
+-- `{%* raw %}`: the begin token is a raw begin, `wrap` drops it — the parser never sees a marker (known finding)
+example : tokenize (envN true false false) asciiTables true "\n".toList "  {%* raw %}x{% endraw %}".toList =
+    [.tok 1 .data "x".toList] := by decide
+-- … whereas for `{%* if %}` the parser-visible begin token ends in `*` (and only that one is wrapped)
+example : (tokenize (envN true false false) asciiTables true "\n".toList "  {%* if y %}".toList).map parserWraps =
+    [true, false, false, false] := by decide
+-- T1 needs its hypothesis, also for the whole lexer
+example : lexF (envN true false false) asciiTables 20 none " {%* x %}".toList ≠
+    lexF (envN true false false).upstream asciiTables 20 none " {%* x %}".toList := by decide
+-- line statements / line comments (not configured by Nunavut, covered by T1 all the same)
+example : lexF ⟨true, false, false, false, some "%%".toList, some "##".toList⟩ asciiTables 20 none "%% if x\na ## c".toList =
+    [.tok .lstmtBegin "%%".toList, .tok .whitespace " ".toList, .tok .name "if".toList, .tok .whitespace " ".toList,
+     .tok .name "x".toList, .tok .lstmtEnd "\n".toList, .tok .data "a".toList, .tok .lcmtBegin " ##".toList,
+     .tok .lcmt " c".toList, .tok .lcmtEnd []] := by decide
+
+-- Round 2, subparse + lineprefix end to end on the model (lexer → items → subparse → render)
+def valX : Val := ⟨fun e => if e = "v".toList then "a\nb".toList else "?".toList, fun _ => true, fun _ => 2, fun _ _ => []⟩
+example : renderTemplate (envN true false false) asciiTables coreStmts valX true "\n".toList "x:\n  {{* v }}!".toList =
+    some "x:\n  a\n  b!".toList := by decide
+-- nested: outer block at 2 blanks, inner expression at 1 blank: inner lines carry 3 blanks
+example : renderTemplate (envN true false false) asciiTables coreStmts valX true "\n".toList
+    "  {%* if c %}\nk\n {{* v }}\n{% endif %}".toList = some "\n  k\n   a\n   b".toList := by decide
+-- a `*` on the end tag is ignored; without markers nothing is wrapped
+example : renderTemplate (envN true false false) asciiTables coreStmts valX true "\n".toList
+    "{% if c %}k{%* endif %}|".toList = some "k|".toList := by decide
+-- the two composition laws at work, and why the exact laws need their side conditions
+example : lineprefix " ".toList (lineprefix "\t".toList "a\n\nb".toList) = " \ta\n\n \tb".toList := by decide
+example : lineprefix " ".toList (lineprefix "\t".toList "a\n\n".toList) = " \ta".toList ∧
+    lineprefix " \t".toList "a\n\n".toList = " \ta\n".toList := by decide
+example : lineprefix "  ".toList "a\n".toList = lineprefix "  ".toList "a".toList := by decide
+example : lineprefix "  ".toList "\n\n".toList = "\n".toList := by decide
 
 end NunavutVerif.Lexer
